@@ -74,16 +74,23 @@ def check(case, ctx):
                 if name not in first:
                     continue
                 for p in d.get("params", []):
-                    if p["k"] == "ref" and p["name"] != name and p["name"] in r.must and p["name"] in first:
+                    if p["k"] == "ref" and p["name"] != name and p["name"] in r.must and p["name"] in first and \
+                            ran.count(name) == 1 and ran.count(p["name"]) == 1:
                         labels.add("arg-order-checked")
                         if first[p["name"]] > first[name]:
                             raise Violation("body-before-argument", f"options={o}: body {name} ran before its argument {p['name']}: {ran}")
 
-            # source of >> before the step's own dependencies
+            # source of >> before the step's own dependencies (only when each dataset is used exactly once in the
+            # program, so that its first run is attributable to this application)
+            refcount = {}
+            specgen.walk(spec, lambda n: refcount.__setitem__(n.get("name") or n.get("base"), refcount.get(n.get("name") or n.get("base"), 0) + 1)
+                         if n["k"] in ("ref", "derived") else None)
+
             def f(n):
                 if n["k"] == "apply" and "step" in n["fn"] and n["src"]["k"] == "ref" and n["fn"]["param"]["k"] == "ref":
                     x, y = n["src"]["name"], n["fn"]["param"]["name"]
                     if x != y and x in first and y in first and x in r.must and y in r.must and \
+                            refcount.get(x) == 1 and refcount.get(y) == 1 and ran.count(x) == 1 and ran.count(y) == 1 and \
                             not depends_on(defs, x, y) and not depends_on(defs, y, x):
                         labels.add("apply-order-checked")
                         if first[x] > first[y]:
@@ -110,6 +117,11 @@ def depends_on(defs, a, b, seen=None):
 @st.composite
 def cases(draw, prof):
     spec = draw(specgen.specs(prof))
+    if len(spec["defs"]) >= 2 and draw(st.booleans()):
+        # make "input of >> before the step applied to it" observable: input and step parameter are datasets
+        a, b = draw(st.permutations(spec["defs"]))[:2]
+        extra = {"k": "apply", "src": {"k": "ref", "name": a["name"]}, "fn": {"step": "pair", "param": {"k": "ref", "name": b["name"]}}}
+        spec = dict(spec, root={"k": "tuple", "items": [extra, spec["root"]] if draw(st.booleans()) else [spec["root"], extra]})
     opts = [draw(U.option_dicts(p_present=draw(st.sampled_from([0.5, 0.8, 0.95])))) for _ in range(2)]
     return {"spec": spec, "options": opts}
 
